@@ -2,6 +2,8 @@
 void run_intfmt(const char *input);
 void run_queue(const char *input);
 void run_regs(const char *input);
+void run_heap(const char *input);
+void run_lexer(const char *input);
 
 void dom_replay(const char *line) {
     char *copy = strdup(line), *arrow;
@@ -10,6 +12,8 @@ void dom_replay(const char *line) {
         case 'I': run_intfmt(copy); break;
         case 'Q': run_queue(copy); break;
         case 'R': run_regs(copy); break;
+        case 'H': run_heap(copy); break;
+        case 'L': run_lexer(copy); break;
         default: break;
     }
     free(copy);
